@@ -44,6 +44,9 @@ var verifC03FilterSrc = []string{
 	"select id from a where not (k = any (select z.k from a as z where z.k >= @x))",       // 14
 	"select id from a where k not in (select z.k from a as z where z.k > a.k)",            // 15: correlated; for a NULL k the list is empty
 	"select id from a where not exists (select 1 from a as z where z.k > a.k)",            // 16
+	"select id from a where k < @x and exists (select 1 from a as z where k >= @y)",       // 17: the inner, unqualified k is z's, although the outer k was just evaluated
+	"select id from a where id >= 0 and id in (select id from a as z where k >= @x)",      // 18
+	"select id, (select count(*) from a as z where k = a.k) from a where k = k",           // 19
 }
 
 var verifC03Joins, verifC03Filters []parser.SelectQuery
@@ -285,6 +288,30 @@ func VerifC03FilterProject() {
 				want = append(want, i)
 			}
 		}
+	case 17:
+		any := false
+		for j := 0; j < n; j++ {
+			if ge(ks[j], y) {
+				any = true
+			}
+		}
+		for i := 0; i < n; i++ {
+			if any && lt(ks[i], x) {
+				want = append(want, i)
+			}
+		}
+	case 18:
+		for i := 0; i < n; i++ {
+			if ge(ks[i], x) {
+				want = append(want, i)
+			}
+		}
+	case 19:
+		for i := 0; i < n; i++ {
+			if !ks[i].null {
+				want = append(want, i)
+			}
+		}
 	case 15:
 		// the list of row i holds keys greater than its own (none for a NULL key): never equal, never NULL
 		for i := 0; i < n; i++ {
@@ -316,6 +343,14 @@ func VerifC03FilterProject() {
 			verifAssert("projected cell is the source cell", view.RecordSet[r][1][0] == ps[want[r]])
 		case 4:
 			verifAssert("columns in select order", view.RecordSet[r][0][0] == ps[want[r]])
+		case 19:
+			c := 0
+			for j := 0; j < n; j++ {
+				if !ks[j].null && !ks[want[r]].null && ks[j].v == ks[want[r]].v {
+					c++
+				}
+			}
+			verifAssert("correlated scalar subquery with an unqualified inner column", verifIdOf(view.RecordSet[r][1][0]) == c)
 		case 9:
 			c := 0
 			for j := 0; j < n; j++ {
